@@ -418,6 +418,8 @@ func DefaultConfig(property string) Config {
 			{"5members-5x10", Bounds{MaxMembers: 5, MaxTopics: 2, MaxParts: 10, FixedParts: []int{5, 10}, Light: true, MinMembers: 4, MaxEvals: 6, Depth: 1, DFSDepth: -1, R: 3}, 20, []string{"a", "b", "c", "d", "e"}},
 			{"compound-4x8x4", Bounds{MaxMembers: 3, MaxTopics: 3, MaxParts: 8, FixedParts: []int{4, 8, 4}, Light: true, Compound: true, CompoundSub: true, MinMembers: 2, MaxEvals: 6, Depth: 2, DFSDepth: -1, R: 3}, 10, []string{"a", "b", "c"}},
 			{"compound-4x8x4x4", Bounds{MaxMembers: 3, MaxTopics: 4, MaxParts: 8, FixedParts: []int{4, 8, 4, 4}, Light: true, Compound: true, CompoundSub: true, MinMembers: 2, MaxEvals: 6, Depth: 1, DFSDepth: -1, R: 3}, 20, []string{"a", "b", "c"}},
+			{"stale-1x8", Bounds{MaxMembers: 3, MaxTopics: 1, MaxParts: 8, FixedParts: []int{8}, ClaimEach: true, MinMembers: 2, MaxEvals: 20, Depth: 2, DFSDepth: -1, R: 10}, 8, []string{"a", "b", "c"}},
+			{"stale-2x5", Bounds{MaxMembers: 3, MaxTopics: 2, MaxParts: 5, FixedParts: []int{5, 5}, ClaimEach: true, MinMembers: 2, MaxEvals: 12, Depth: 1, DFSDepth: -1, R: 6}, 10, []string{"a", "b", "c"}},
 		}
 	} else {
 		cfg.Stateless = Bounds{MaxMembers: 3, MaxTopics: 3, MaxParts: 3, R: 3}
@@ -426,6 +428,7 @@ func DefaultConfig(property string) Config {
 			{"3topics-2parts", Bounds{MaxMembers: 3, MaxTopics: 3, MaxParts: 2, Depth: 2, DFSDepth: 0, R: 3}, 55, nil},
 			{"5members-5x10", Bounds{MaxMembers: 5, MaxTopics: 2, MaxParts: 10, FixedParts: []int{5, 10}, Light: true, MinMembers: 4, MaxEvals: 6, Depth: 1, DFSDepth: -1, R: 3}, 40, []string{"a", "b", "c", "d", "e"}},
 			{"compound-4x8x4", Bounds{MaxMembers: 3, MaxTopics: 3, MaxParts: 8, FixedParts: []int{4, 8, 4}, Light: true, Compound: true, CompoundSub: true, MinMembers: 2, MaxEvals: 6, Depth: 1, DFSDepth: -1, R: 3}, 20, []string{"a", "b", "c"}},
+			{"stale-1x8", Bounds{MaxMembers: 3, MaxTopics: 1, MaxParts: 8, FixedParts: []int{8}, ClaimEach: true, MinMembers: 2, MaxEvals: 12, Depth: 1, DFSDepth: -1, R: 6}, 8, []string{"a", "b", "c"}},
 		}
 	}
 	if property == "C08" {
@@ -503,6 +506,9 @@ func boundsMap(b Bounds, sticky bool) map[string]interface{} {
 		m["differential_dfs_depth"] = b.DFSDepth
 		if b.Light {
 			m["events"] = "membership only (fresh join with any subscription, leave)"
+		}
+		if b.ClaimEach {
+			m["stale_claims"] = "all, dirty, and every single partition of the joiner's first topic"
 		}
 		if b.Compound {
 			m["compound_events"] = "two changes in one rebalance: (topic deleted | member leaves) + a fresh member joins with any subscription"
